@@ -15,7 +15,10 @@ What is modelled (one line of C++ per clause, see the comments at each definitio
   turning attached ends into free points, `ShapeConnectionPin::~ShapeConnectionPin` →
   `ConnEnd::freeActivePin`);
 * transaction use on/off: every mutator ends with `if (!m_consolidate_actions) processTransaction();`;
-* `Router::~Router`: deletes what is in `connRefs` and `m_obstacles` (the *active* objects) only.
+* `Router::~Router`: deletes what is in `connRefs` and `m_obstacles` (the *active* objects) only;
+* checkpoint vertices (`ConnRef::m_checkpoint_vertices`, a separate id space logged in `vcreated` /
+  `vfreed`): `ConnRef::setRoutingCheckpoints` deletes the connector's old vertices and creates the new
+  ones, `~ConnRef` deletes the connector's vertices.
 
 `faults` records the places where the C++ would dereference a freed object, re-enter
 `processActions` while it is iterating, or trip an assertion that guards an undocumented
@@ -71,6 +74,7 @@ structure Conn where
   active : Bool                              -- member of Router::connRefs
   src : End
   dst : End
+  cps : List Id := []                        -- ConnRef::m_checkpoint_vertices (owned VertInf objects, by id)
   deriving DecidableEq, Repr, Inhabited
 
 structure Pin where
@@ -96,6 +100,8 @@ structure St where
   actions : List Action := []                -- Router::actionList
   created : List Id := []                    -- log: every object ever allocated
   freed : List Id := []                      -- log: every `delete`, with multiplicity
+  vcreated : List Id := []                   -- log: every checkpoint vertex ever allocated (separate id space)
+  vfreed : List Id := []                     -- log: every checkpoint vertex `delete`, with multiplicity
   faults : List Fault := []
   deriving Repr, Inhabited
 
@@ -117,6 +123,8 @@ inductive Op where
   | moveShape (id : Id)
   | moveJunction (id : Id)
   | setEndpoint (conn : Id) (isDst : Bool) (e : EndSpec)
+  /-- `ConnRef::setRoutingCheckpoints(checkpoints)`; `vs` = ids given to the new checkpoint vertices -/
+  | setRoutingCheckpoints (conn : Id) (vs : List Id)
   | processTransaction
   | setTransactionUse (b : Bool)
   | deleteRouter
@@ -199,11 +207,26 @@ def St.freeObstacle (s : St) (o : Id) : St :=
     obst := s.obst.filter (fun x => x.id != o)
     freed := s.freed ++ o :: ps.map (·.id) }
 
-/-- ConnRef::~ConnRef -/
+/-- the checkpoint vertices owned by connector `c` -/
+def St.cpsOf (s : St) (c : Id) : List Id := (s.conns.filter (fun x => x.id == c)).flatMap (·.cps)
+
+/-- every checkpoint vertex currently owned by some connector -/
+def St.allCps (s : St) : List Id := s.conns.flatMap (·.cps)
+
+/-- ConnRef::~ConnRef (also deletes its checkpoint vertices) -/
 def St.freeConn (s : St) (c : Id) : St :=
   { s.removeFromQueue c with
     conns := s.conns.filter (fun x => x.id != c)
-    freed := s.freed ++ [c] }
+    freed := s.freed ++ [c]
+    vfreed := s.vfreed ++ s.cpsOf c }
+
+/-- ConnRef::setRoutingCheckpoints: remove and delete the old checkpoint vertices, clear the vector,
+    create one vertex per new checkpoint.  Queues nothing and does not call processTransaction. -/
+def St.setCheckpoints (s : St) (c : Id) (vs : List Id) : St :=
+  { s with
+    conns := s.conns.map (fun x => if x.id == c then { x with cps := vs } else x)
+    vfreed := s.vfreed ++ s.cpsOf c
+    vcreated := s.vcreated ++ vs }
 
 /-! ### Router::processActions -/
 
@@ -355,6 +378,8 @@ def step (s : St) (op : Op) : St :=
   | .setEndpoint c isDst e =>
     if !s.hasConn c then s.addFault (.notAllocated c) else
     (s.modify c isDst e).maybeProcess
+  | .setRoutingCheckpoints c vs =>
+    if !s.hasConn c then s.addFault (.notAllocated c) else s.setCheckpoints c vs
   | .processTransaction => s.processTransaction
   | .setTransactionUse b => { s with consolidate := b }
   | .deleteRouter =>
@@ -374,6 +399,9 @@ def run (h : List Op) : St := h.foldl step init
 
 /-- objects the router still holds after `~Router` (never activated ⇒ never freed): a leak -/
 def St.leaked (s : St) : List Id := if s.alive then [] else s.allocated
+
+/-- checkpoint vertices still owned after `~Router` -/
+def St.leakedCps (s : St) : List Id := if s.alive then [] else s.allCps
 
 /-! ### legality -/
 
@@ -404,6 +432,7 @@ def LegalDoc (s : St) (op : Op) : Bool :=
   | .moveShape id => s.hasShape id && !s.pendingRemove id
   | .moveJunction id => s.hasJunction id && !s.pendingRemove id
   | .setEndpoint c _ e => s.hasConn c && specOk s e
+  | .setRoutingCheckpoints c vs => s.hasConn c && vs.all (fun v => !s.vcreated.contains v) && decide vs.Nodup
   | .processTransaction => true
   | .setTransactionUse _ => true
   | .deleteRouter => true
